@@ -404,3 +404,21 @@ package gomatrixserverlib
 //@   ensures verdict: authEvents.Valid() ==> (called(allowed) && err == ret(allowed))
 //@   calls newAllowerContext fresh-context: provider == authEvents && userIDQuerier == old(userIDQuerier) && roomID == event.RoomID()
 //@   calls allowed same-event: event == old(event) && a == ret(newAllowerContext)
+
+// ---------------------------------------------------------------- C09: needed state
+
+//@ func thirdPartyInviteToken
+//@   property C09
+//@   requires thirdPartyInvite != nil
+//@   ensures iff: (err == nil) <==> thirdPartyInvite.Signed.Token != ""
+//@   ensures token: err == nil ==> result[0] == thirdPartyInvite.Signed.Token
+//@   assigns nothing
+
+//@ func accumulateStateNeeded
+//@   property C09
+//@   requires result != nil
+//@   ensures member-needs: (err == nil && eventType == "m.room.member") ==> (result.Create && result.PowerLevels && inStrs(result.Member, string(sender)) && (stateKey != nil ==> inStrs(result.Member, *stateKey)) && ((content.Membership == "join" || content.Membership == "knock" || content.Membership == "invite") ==> result.JoinRules) && (content.ThirdPartyInvite != nil ==> inStrs(result.ThirdPartyInvite, content.ThirdPartyInvite.Signed.Token)) && (content.AuthorizedVia != "" ==> inStrs(result.Member, content.AuthorizedVia)))
+//@   ensures alias-needs: eventType == "m.room.aliases" ==> result.Create
+//@   ensures other-needs: (eventType != "m.room.create" && eventType != "m.room.aliases" && eventType != "m.room.member") ==> (result.Create && result.PowerLevels && inStrs(result.Member, string(sender)))
+//@   ensures monotone: (old(result.Create) ==> result.Create) && (old(result.PowerLevels) ==> result.PowerLevels) && (old(result.JoinRules) ==> result.JoinRules) && (forall s string :: inStrs(old(result.Member), s) ==> inStrs(result.Member, s)) && (forall s string :: inStrs(old(result.ThirdPartyInvite), s) ==> inStrs(result.ThirdPartyInvite, s))
+//@   assigns *result
